@@ -17,7 +17,7 @@ package statf
 //@   requires st != nil && validR(readBuf)
 //@   let p0 = readBuf.buf.i
 //@   let allocbudget = 256 * len(readBuf.buf.src)
-//@   modifies *st, readBuf.buf.i, readBuf.depth
+//@   modifies *st, readBuf.rderr, readBuf.buf.i, readBuf.depth
 //@   allocates
 //@   ensures [C05] readBuf.buf.i >= p0
 //@   ensures [C05] validR(readBuf)
@@ -82,6 +82,19 @@ package statf
 //@   ensures [C04] (ok11 && err == nil) ==> st.TarsVersion == (k11 == 0 ? decStrV(src, q10, 10, d0) : old(st.TarsVersion))
 //@   ensures [C06] (ok10 && k11 == 2) ==> err != nil
 //@   ensures [C04] ok11 ==> (err == nil && readBuf.buf.i == q11)
+//@   site ResetDefault#0 ghost readBuf.rderr = false
+//@   site ).Read#0 ghostafter readBuf.rderr = readBuf.rderr || $ret != nil
+//@   site ).Read#1 ghostafter readBuf.rderr = readBuf.rderr || $ret != nil
+//@   site ).Read#2 ghostafter readBuf.rderr = readBuf.rderr || $ret != nil
+//@   site ).Read#3 ghostafter readBuf.rderr = readBuf.rderr || $ret != nil
+//@   site ).Read#4 ghostafter readBuf.rderr = readBuf.rderr || $ret != nil
+//@   site ).Read#5 ghostafter readBuf.rderr = readBuf.rderr || $ret != nil
+//@   site ).Read#6 ghostafter readBuf.rderr = readBuf.rderr || $ret != nil
+//@   site ).Read#7 ghostafter readBuf.rderr = readBuf.rderr || $ret != nil
+//@   site ).Read#8 ghostafter readBuf.rderr = readBuf.rderr || $ret != nil
+//@   site ).Read#9 ghostafter readBuf.rderr = readBuf.rderr || $ret != nil
+//@   site ).Read#10 ghostafter readBuf.rderr = readBuf.rderr || $ret != nil
+//@   ensures [C06] readBuf.rderr ==> err != nil
 //@   site ).Read#0 assert [C04] $2 == 0 && $3 == true
 //@   site ).Read#1 assert [C04] $2 == 1 && $3 == true
 //@   site ).Read#2 assert [C04] $2 == 2 && $3 == true
@@ -101,10 +114,11 @@ package statf
 //@   requires st != nil && validR(readBuf)
 //@   let p0 = readBuf.buf.i
 //@   let allocbudget = 256 * len(readBuf.buf.src)
-//@   modifies *st, readBuf.buf.i, readBuf.depth
+//@   modifies *st, readBuf.rderr, readBuf.buf.i, readBuf.depth
 //@   allocates
 //@   ensures [C05] readBuf.buf.i >= p0
 //@   ensures [C05] validR(readBuf)
+//@   ensures [C06] (readBuf.rderr && !old(readBuf.rderr)) ==> result != nil
 //@   safety [C05]
 //
 //@ func (*StatMicMsgHead).WriteTo
@@ -180,7 +194,7 @@ package statf
 //@   requires st != nil && validR(readBuf)
 //@   let p0 = readBuf.buf.i
 //@   let allocbudget = 256 * len(readBuf.buf.src)
-//@   modifies *st, readBuf.buf.i, readBuf.depth
+//@   modifies *st, readBuf.rderr, readBuf.buf.i, readBuf.depth
 //@   allocates
 //@   ensures [C05] readBuf.buf.i >= p0
 //@   ensures [C05] validR(readBuf)
@@ -205,6 +219,19 @@ package statf
 //@   ensures [C04] (ok3 && err == nil) ==> st.ExecCount == (k3 == 0 ? decIntV(src, q2, 2, d0) : old(st.ExecCount))
 //@   ensures [C06] (ok2 && k3 == 2) ==> err != nil
 //@   loop 0 invariant [C05] validR(readBuf) && readBuf.buf.i >= p0 && st != nil && st.IntervalCount != nil && 0 <= i0
+//@   loop 0 invariant [C06] !readBuf.rderr
+//@   site ResetDefault#0 ghost readBuf.rderr = false
+//@   site ).Read#0 ghostafter readBuf.rderr = readBuf.rderr || $ret != nil
+//@   site ).Read#1 ghostafter readBuf.rderr = readBuf.rderr || $ret != nil
+//@   site ).Read#2 ghostafter readBuf.rderr = readBuf.rderr || $ret != nil
+//@   site ).Read#3 ghostafter readBuf.rderr = readBuf.rderr || $ret != nil
+//@   site ).Read#4 ghostafter readBuf.rderr = readBuf.rderr || $ret != nil
+//@   site ).Read#5 ghostafter readBuf.rderr = readBuf.rderr || $ret != nil
+//@   site ).Read#6 ghostafter readBuf.rderr = readBuf.rderr || $ret != nil
+//@   site ).Read#7 ghostafter readBuf.rderr = readBuf.rderr || $ret != nil
+//@   site ).Read#8 ghostafter readBuf.rderr = readBuf.rderr || $ret != nil
+//@   site ).Skip#0 ghostafter readBuf.rderr = readBuf.rderr || $ret1 != nil
+//@   ensures [C06] readBuf.rderr ==> err != nil
 //@   site ).Read#0 assert [C04] $2 == 0 && $3 == true
 //@   site ).Read#1 assert [C04] $2 == 1 && $3 == true
 //@   site ).Read#2 assert [C04] $2 == 2 && $3 == true
@@ -223,10 +250,11 @@ package statf
 //@   requires st != nil && validR(readBuf)
 //@   let p0 = readBuf.buf.i
 //@   let allocbudget = 256 * len(readBuf.buf.src)
-//@   modifies *st, readBuf.buf.i, readBuf.depth
+//@   modifies *st, readBuf.rderr, readBuf.buf.i, readBuf.depth
 //@   allocates
 //@   ensures [C05] readBuf.buf.i >= p0
 //@   ensures [C05] validR(readBuf)
+//@   ensures [C06] (readBuf.rderr && !old(readBuf.rderr)) ==> result != nil
 //@   safety [C05]
 //
 //@ func (*StatMicMsgBody).WriteTo
@@ -254,7 +282,7 @@ package statf
 //@   requires st != nil && validR(readBuf)
 //@   let p0 = readBuf.buf.i
 //@   let allocbudget = 256 * len(readBuf.buf.src)
-//@   modifies *st, readBuf.buf.i, readBuf.depth
+//@   modifies *st, readBuf.rderr, readBuf.buf.i, readBuf.depth
 //@   allocates
 //@   ensures [C05] readBuf.buf.i >= p0
 //@   ensures [C05] validR(readBuf)
@@ -309,6 +337,17 @@ package statf
 //@   ensures [C04] (ok9 && err == nil) ==> st.ParentWidth == (k9 == 0 ? decIntV(src, q8, 8, d0) : old(st.ParentWidth))
 //@   ensures [C06] (ok8 && k9 == 2) ==> err != nil
 //@   ensures [C04] ok9 ==> (err == nil && readBuf.buf.i == q9)
+//@   site ResetDefault#0 ghost readBuf.rderr = false
+//@   site ).Read#0 ghostafter readBuf.rderr = readBuf.rderr || $ret != nil
+//@   site ).Read#1 ghostafter readBuf.rderr = readBuf.rderr || $ret != nil
+//@   site ).Read#2 ghostafter readBuf.rderr = readBuf.rderr || $ret != nil
+//@   site ).Read#3 ghostafter readBuf.rderr = readBuf.rderr || $ret != nil
+//@   site ).Read#4 ghostafter readBuf.rderr = readBuf.rderr || $ret != nil
+//@   site ).Read#5 ghostafter readBuf.rderr = readBuf.rderr || $ret != nil
+//@   site ).Read#6 ghostafter readBuf.rderr = readBuf.rderr || $ret != nil
+//@   site ).Read#7 ghostafter readBuf.rderr = readBuf.rderr || $ret != nil
+//@   site ).Read#8 ghostafter readBuf.rderr = readBuf.rderr || $ret != nil
+//@   ensures [C06] readBuf.rderr ==> err != nil
 //@   site ).Read#0 assert [C04] $2 == 0 && $3 == true
 //@   site ).Read#1 assert [C04] $2 == 1 && $3 == true
 //@   site ).Read#2 assert [C04] $2 == 2 && $3 == true
@@ -326,10 +365,11 @@ package statf
 //@   requires st != nil && validR(readBuf)
 //@   let p0 = readBuf.buf.i
 //@   let allocbudget = 256 * len(readBuf.buf.src)
-//@   modifies *st, readBuf.buf.i, readBuf.depth
+//@   modifies *st, readBuf.rderr, readBuf.buf.i, readBuf.depth
 //@   allocates
 //@   ensures [C05] readBuf.buf.i >= p0
 //@   ensures [C05] validR(readBuf)
+//@   ensures [C06] (readBuf.rderr && !old(readBuf.rderr)) ==> result != nil
 //@   safety [C05]
 //
 //@ func (*StatSampleMsg).WriteTo
@@ -389,7 +429,7 @@ package statf
 //@   requires st != nil && validR(readBuf)
 //@   let p0 = readBuf.buf.i
 //@   let allocbudget = 256 * len(readBuf.buf.src)
-//@   modifies *st, readBuf.buf.i, readBuf.depth
+//@   modifies *st, readBuf.rderr, readBuf.buf.i, readBuf.depth
 //@   allocates
 //@   ensures [C05] readBuf.buf.i >= p0
 //@   ensures [C05] validR(readBuf)
@@ -404,6 +444,9 @@ package statf
 //@   ensures [C04] (ok1 && err == nil) ==> st.BFromClient == (k1 == 0 ? (decIntV(src, q0, 0, d0) != 0) : old(st.BFromClient))
 //@   ensures [C06] (k1 == 2) ==> err != nil
 //@   ensures [C04] ok1 ==> (err == nil && readBuf.buf.i == q1)
+//@   site ResetDefault#0 ghost readBuf.rderr = false
+//@   site ).Read#0 ghostafter readBuf.rderr = readBuf.rderr || $ret != nil
+//@   ensures [C06] readBuf.rderr ==> err != nil
 //@   site ).Read#0 assert [C04] $2 == 0 && $3 == true
 //@   sites ).Read = 1
 //@   sites ).Skip = 0
@@ -413,10 +456,11 @@ package statf
 //@   requires st != nil && validR(readBuf)
 //@   let p0 = readBuf.buf.i
 //@   let allocbudget = 256 * len(readBuf.buf.src)
-//@   modifies *st, readBuf.buf.i, readBuf.depth
+//@   modifies *st, readBuf.rderr, readBuf.buf.i, readBuf.depth
 //@   allocates
 //@   ensures [C05] readBuf.buf.i >= p0
 //@   ensures [C05] validR(readBuf)
+//@   ensures [C06] (readBuf.rderr && !old(readBuf.rderr)) ==> result != nil
 //@   safety [C05]
 //
 //@ func (*ProxyInfo).WriteTo
